@@ -113,17 +113,28 @@ pub fn parse(path: &str) -> Option<Loc> {
             loc.push(Step::Name(name));
         } else {
             let start = i;
+            // a negative index step (`[-1]`, what a query's index selector counts from the end) is judged
+            // too: no location has one, so it is carried as a step nothing matches (S122)
+            let neg = i < cs.len() && cs[i] == '-';
+            if neg {
+                i += 1;
+            }
+            let dstart = i;
             while i < cs.len() && cs[i].is_ascii_digit() {
                 i += 1;
             }
-            if i == start || i >= cs.len() || cs[i] != ']' {
+            if i == dstart || i >= cs.len() || cs[i] != ']' {
                 return None;
             }
             let digits: String = cs[start..i].iter().collect();
-            if digits.len() > 1 && digits.starts_with('0') {
+            if (i - dstart > 1 && cs[dstart] == '0') || (neg && cs[dstart] == '0') {
                 return None;
             }
             i += 1;
+            if neg {
+                loc.push(Step::Big(digits));
+                continue;
+            }
             match digits.parse::<usize>() {
                 Ok(i) => loc.push(Step::Idx(i)),
                 Err(_) => loc.push(Step::Big(digits)),
